@@ -19,7 +19,7 @@ def other(k, b=0):
     return {"k": k, "b": b, "neg": 0, "ip": [], "fp": [], "us": []}
 
 def ev(op, a, b, obs, case, devs=()):
-    return {"op": op, "a": a, "b": b, "obs": obs, "case": case, "devs": list(devs)}
+    return {"c": 1 if "us" in a else 0, "op": op, "a": a, "b": b, "obs": obs, "case": case, "devs": list(devs)}
 
 def run():
     work = os.path.join(ROOT, "work", "selftest-units")
@@ -30,7 +30,9 @@ def run():
             ev("div", q(3, 1, "cm"), q(-2, 1, "Q"), num("-60", []), 3),
             ev("*", q(1, 2, "in"), q(3, 1, "px"), num("144", [("px", 2)]), 4),
             ev("+", q(1, 1, "px"), q(1, 1, "s"), other("err"), 5),
-            ev("+", q(1, 1, "em"), q(1, 1, "ex"), num("1.6", [("em", 1)]), 6, devs=["font_units_convertible"])]
+            ev("+", q(1, 1, "em"), q(1, 1, "ex"), num("1.6", [("em", 1)]), 6, devs=["font_units_convertible"]),
+            # compound unit sets: 1in*in + 1cm*cm = 1.15500031 in*in (factor (50/127)^2, not its inverse)
+            ev("+", {"n": 1, "d": 1, "us": [{"u": "in", "e": 2}]}, {"n": 1, "d": 1, "us": [{"u": "cm", "e": 2}]}, num("1.15500031", []), 7)]
     bad = [dict(e) for e in good]
     bad[0] = ev("+", q(1, 1, "in"), q(1, 1, "cm"), num("1.4", [("in", 1)]), 0)
     res = []
